@@ -193,7 +193,7 @@ text = st.recursive(leaf_text, _text_ext, max_leaves=8)
 def_node = st.builds(lambda i, fl, ip, sp, body, s: ['def', i, fl, ip, sp, body, s], tiny, st.sampled_from([None, None, 0, 1, 2, 3]),
                      st.lists(st.one_of(st.none(), st.none(), I(0, 9)), max_size=3), st.lists(st.one_of(st.none(), safeword, I(0, 2)), max_size=2), text, sf)
 call_node = st.builds(lambda i, args, nkw, sargs, p, s: ['call', i, args, nkw, sargs, p, s], tiny, st.lists(st.one_of(st.none(), expr, num), max_size=3), I(0, 2),
-                      st.one_of(st.none(), st.lists(safeword, max_size=2)), pf, sf)
+                      st.one_of(st.none(), st.lists(st.one_of(safeword, safeword, st.sampled_from(['$m', '$p', '$x', '$$'])), max_size=2)), pf, sf)
 unit = st.builds(lambda xs: ['seq', xs], st.lists(st.one_of(text, text, text, text, text, def_node, call_node), min_size=1, max_size=5))
 pc_node = st.builds(lambda g: ['pc', g], tiny)
 cli_unit = st.builds(lambda xs: ['seq', xs], st.lists(st.one_of(text, text, def_node, call_node, pc_node), min_size=1, max_size=4))
